@@ -147,8 +147,9 @@ pub fn run_worker_loop(check: &dyn Check, ctx: &Ctx, wa: &WorkerArgs) {
     let mut since = 0u64;
     let mut idx = wa.shard as u64;
     // first index >= from belonging to this shard
-    while idx < wa.from {
-        idx += wa.nshards as u64;
+    if idx < wa.from {
+        let ns = wa.nshards as u64;
+        idx += (wa.from - idx).div_ceil(ns) * ns;
     }
     let mut last_flush = std::time::Instant::now();
     SUBSKIP.store(wa.subskip, Ordering::Relaxed);
